@@ -1,15 +1,134 @@
-import FuModel.Xargs.Batch
-
+import FuModel.Proofs.XargsBatch
+/-
+C04: batching of input arguments by `xargs` (limits -n, -L, -s and the system
+limiter): losslessness, limits, maximality, empty input, oversized arguments and
+the justification of status 1.  The proofs rest on the invariant of
+`processInput` in `FuModel.Proofs.XargsBatch`.
+-/
 namespace FuModel.Xargs
 
-/-- placeholder obligation, replaced by the batching theorems -/
-theorem C04_classify_total (o : Outcome) : classify o = .success ∨ classify o = .failure ∨ ∃ s, classify o = .fatal s := by
-  cases o with
-  | exit c =>
-    unfold classify
-    split <;> simp_all
-  | signal s => simp [classify]
-  | notFound => simp [classify]
-  | cannotRun => simp [classify]
+/-- operational and declarative readings of the limits coincide for input arguments -/
+theorem C04_fits_iff (lim : Limits) (init : LState) (b : List Arg)
+    (hk : ∀ a ∈ b, a.kind ≠ .initial) :
+    fitsB lim init b = true ↔ FitsSpec lim init b :=
+  fitsB_iff_fitsSpec lim init b hk
+
+/-- nothing lost, duplicated, merged, split or reordered: the appended arguments of the
+    started commands, concatenated, are a prefix of the input, and all of it when the run completes -/
+theorem C04_lossless (cfg : Config) (init : LState) (script : List Outcome) (args : List Arg) :
+    let run := processInput cfg init false ⟨init, []⟩ false false [] script args
+    run.batches.flatten <+: args ∧
+    ((run.status = 0 ∨ run.status = 123) → run.batches.flatten = args) := by
+  intro run
+  obtain ⟨rest, hrest, hdone⟩ := (run_post cfg init script args).pre
+  refine ⟨⟨rest, hrest.symm⟩, fun hs => ?_⟩
+  have := hdone hs
+  subst this
+  simpa using hrest.symm
+
+/-- every started command satisfies all limits simultaneously -/
+theorem C04_limits (cfg : Config) (init : LState) (script : List Outcome) (args : List Arg) :
+    ∀ b ∈ (processInput cfg init false ⟨init, []⟩ false false [] script args).batches,
+      fitsB cfg.lim init b = true :=
+  (run_post cfg init script args).fits
+
+/-- maximality: the first argument of the next command was held back only because
+    adding it to this command would break a limit -/
+theorem C04_maximal (cfg : Config) (init : LState) (script : List Outcome) (args : List Arg) :
+    let run := processInput cfg init false ⟨init, []⟩ false false [] script args
+    ∀ i (h : i + 1 < run.batches.length),
+      ∃ a, (run.batches[i + 1]).head? = some a ∧
+        fitsB cfg.lim init (run.batches[i]'(by omega) ++ [a]) = false := by
+  intro run i h
+  exact (run_post cfg init script args).chain i h
+
+/-- empty input: exactly one command without -r, none with -r -/
+theorem C04_empty (cfg : Config) (init : LState) (script : List Outcome) :
+    (processInput cfg init false ⟨init, []⟩ false false [] script []).batches
+      = if cfg.r then [] else [[]] := by
+  rw [processInput]
+  cases hr : cfg.r <;> simp
+  cases classify (nextOutcome script).1 <;> rfl
+
+/-- with non-empty input no command is started without an appended argument -/
+theorem C04_nonempty_batches (cfg : Config) (init : LState) (script : List Outcome) (args : List Arg)
+    (hne : args ≠ []) :
+    ∀ b ∈ (processInput cfg init false ⟨init, []⟩ false false [] script args).batches, b ≠ [] :=
+  (run_post cfg init script args).ne hne
+
+/-- an argument that does not fit even in an otherwise empty command prevents the run
+    from completing (so it ends with status 1 or a child's fatal status) and, by C04_limits, is in no command -/
+theorem C04_too_large (cfg : Config) (init : LState) (script : List Outcome) (args : List Arg)
+    (a : Arg) (ha : a ∈ args) (hbig : fitsB cfg.lim init [a] = false) :
+    let run := processInput cfg init false ⟨init, []⟩ false false [] script args
+    run.status ≠ 0 ∧ run.status ≠ 123 := by
+  intro run
+  have hdone : ¬ (run.status = 0 ∨ run.status = 123) := by
+    intro hs
+    have hall := (C04_lossless cfg init script args).2 hs
+    rw [← hall] at ha
+    obtain ⟨b, hb, hab⟩ := List.mem_flatten.1 ha
+    have := fitsB_singleton_of_mem (C04_limits cfg init script args b hb) hab
+    rw [hbig] at this
+    cases this
+  exact ⟨fun h => hdone (Or.inl h), fun h => hdone (Or.inr h)⟩
+
+/-- status 1 is justified: the first argument that was not delivered either does not fit
+    alone, or (-x with -n or -L) overflowed the size limit of the command under construction -/
+theorem C04_status_one (cfg : Config) (init : LState) (script : List Outcome) (args : List Arg) :
+    let run := processInput cfg init false ⟨init, []⟩ false false [] script args
+    run.status = 1 → (∀ o ∈ script, o.isFatal = false) →
+    ∃ pending a post, args = run.batches.flatten ++ pending ++ a :: post ∧
+      fitsB cfg.lim init pending = true ∧
+      ((pending = [] ∧ fitsB cfg.lim init [a] = false) ∨
+       (cfg.x = true ∧ (cfg.lim.n.isSome ∨ cfg.lim.l.isSome) ∧
+        ∃ st, foldTry cfg.lim init pending = some st ∧ tryArg cfg.lim st a = .error true)) := by
+  intro run h1 _
+  exact run_status_one cfg init script args h1
+
+/-! ### the hypotheses are satisfiable on concrete data -/
+
+/-- `C04_fits_iff`: a command of three input arguments (one ending its line) that fits
+    under -n 3 -L 2 -s 20 with a pointer charge of 8 bytes per argument -/
+example :
+    let lim : Limits := ⟨some 3, some 2, some 20, 100, 8, 50⟩
+    let init : LState := ⟨0, 1, 5, 13⟩
+    let b : List Arg := [⟨[97], .soft⟩, ⟨[98, 99], .hard⟩, ⟨[100], .soft⟩]
+    (∀ a ∈ b, a.kind ≠ .initial) ∧ fitsB lim init b = true ∧
+      fitsB lim init (b ++ [⟨[101], .hard⟩]) = false := by decide
+
+/-- `C04_maximal`, `C04_nonempty_batches`: -n 2 on three arguments starts two commands,
+    the first one failing (status 123) -/
+example :
+    let cfg : Config := ⟨⟨some 2, none, none, 100, 8, 50⟩, false, false, none⟩
+    let init : LState := ⟨0, 1, 5, 13⟩
+    let args : List Arg := [⟨[97], .soft⟩, ⟨[98], .soft⟩, ⟨[99], .hard⟩]
+    let run := processInput cfg init false ⟨init, []⟩ false false [] [.exit 1] args
+    args ≠ [] ∧ 0 + 1 < run.batches.length ∧ run.status = 123 ∧
+      run.batches = [[⟨[97], .soft⟩, ⟨[98], .soft⟩], [⟨[99], .hard⟩]] := by decide
+
+/-- `C04_too_large`, `C04_status_one` (first disjunct): under -s 10 a six-byte argument
+    does not fit alone; the command before it is started, the run ends with status 1 -/
+example :
+    let cfg : Config := ⟨⟨none, none, some 10, 100, 8, 50⟩, false, false, none⟩
+    let init : LState := ⟨0, 1, 5, 13⟩
+    let big : Arg := ⟨[1, 2, 3, 4, 5, 6], .hard⟩
+    let args : List Arg := [⟨[97], .hard⟩, big, ⟨[98], .hard⟩]
+    let script : List Outcome := [.exit 1]
+    let run := processInput cfg init false ⟨init, []⟩ false false [] script args
+    big ∈ args ∧ fitsB cfg.lim init [big] = false ∧ run.status = 1 ∧
+      (∀ o ∈ script, o.isFatal = false) ∧ run.batches = [[⟨[97], .hard⟩]] := by decide
+
+/-- `C04_status_one` (second disjunct): -x -n 3 -s 12; the third argument fits alone but
+    overflows the size of the command under construction, which is dropped -/
+example :
+    let cfg : Config := ⟨⟨some 3, none, some 12, 100, 8, 50⟩, true, false, none⟩
+    let init : LState := ⟨0, 1, 5, 13⟩
+    let args : List Arg := [⟨[97, 97], .soft⟩, ⟨[98, 98], .soft⟩, ⟨[99, 99], .soft⟩]
+    let script : List Outcome := [.exit 3]
+    let run := processInput cfg init false ⟨init, []⟩ false false [] script args
+    run.status = 1 ∧ (∀ o ∈ script, o.isFatal = false) ∧ run.batches = [] ∧
+      fitsB cfg.lim init [⟨[99, 99], .soft⟩] = true ∧
+      fitsB cfg.lim init [⟨[97, 97], .soft⟩, ⟨[98, 98], .soft⟩] = true := by decide
 
 end FuModel.Xargs
